@@ -85,6 +85,31 @@ def specExpandWordMultiple (env : Env) (w : Word) : Env × Except Err (List (Lis
   | (env', .ok ph) =>
     (env', .ok ((ph.toFields.flatMap (specFields env'.ifs.classifyAttr)).map removeQuotesAndStrip))
 
+/-- a list of words as POSIX describes it: each word in turn, in the environment its predecessors
+    left, fields appended in order -/
+def specExpandWords (env : Env) : List Word → Env × Except Err (List (List Char))
+  | [] => (env, .ok [])
+  | w :: ws =>
+    match specExpandWordMultiple env w with
+    | (env', .error e) => (env', .error e)
+    | (env', .ok fs) =>
+      match specExpandWords env' ws with
+      | (env'', .error e) => (env'', .error e)
+      | (env'', .ok gs) => (env'', .ok (fs ++ gs))
+
+/-- the separator used when positional parameters are joined: first character of IFS, a space when
+    IFS is unset, nothing when it is empty (XCU 2.5.2 `*`) -/
+def sepChar (env : Env) : Option Char :=
+  match env.getValue "IFS" with
+  | some (.scalar v) => v.head?
+  | some (.array vs) => vs.head?.bind (·.head?)
+  | none => some ' '
+
+def joinStrings (sep : Option Char) : List (List Char) → List Char
+  | [] => []
+  | [s] => s
+  | s :: t :: r => s ++ (match sep with | some c => [c] | none => []) ++ joinStrings sep (t :: r)
+
 /-! ## Phrase denotation -/
 
 /-- concatenation of two lists of fields: last of the left glued to first of the right -/
